@@ -165,6 +165,7 @@ class LegacyDFXPWriter(BaseWriter):
         return dfxp
 
     def _recreate_styling_tag(self, style, content, dfxp):
+        style = _escape_attr(style)
         dfxp_style = dfxp.new_tag('style')
         dfxp_style.attrs.update({'xml:id': style})
 
